@@ -155,7 +155,11 @@ Inductive tbl_op :=
 | ODropColumn (c : ident)
 | OAlterColumn (a : altercol)
 | OCreateIndex (name : cname) (exprs : list ixexpr) (unique : option bool) (if_not_exists : option bool)
-| ODropIndex (name : cname) (if_exists : option bool)
+| ODropIndex (name : cname) (if_exists : option bool) (name_stable : bool)
+      (* name_stable: replacing the expressions the operation object remembers (its _reverse) by the dummy column that
+         DropIndexOp.to_index uses when it remembers none does not change the name the naming convention in force gives
+         the index.  False only for an index without any table-bound column under a convention with a
+         constraint_name token: such an index keeps its plain name, one over a table column is renamed. *)
 | OCreateUnique (name : cname) (cols : list ident) (deferrable : option bool) (initially : option str)
 | OCreateFk (f : fkop)
 | ODropConstraint (name : cname) (type_ : option ident)
@@ -171,7 +175,9 @@ Inductive top_op :=
 | TModify (tname : ident) (schema : option ident) (ops : list (ident * option ident * tbl_op)).
       (* ModifyTableOps(table_name, ops, schema): every member carries its own table name and schema *)
 
-Record cfg := mkCfg { cfg_op : str; cfg_sa : str; cfg_batch : bool }.   (* alembic_module_prefix, sqlalchemy_module_prefix (one dotted name each), render_as_batch *)
+Record cfg := mkCfg { cfg_op : str; cfg_sa : str; cfg_batch : bool; cfg_nc : bool }.
+   (* cfg_nc: the MetaData naming convention in force has %(constraint_name)s tokens, so that a plain name given to
+      a constraint / index is expanded once more while a conv() name (rendered op.f(...)) is final *)   (* alembic_module_prefix, sqlalchemy_module_prefix (one dotted name each), render_as_batch *)
 
 (* ---------------------------------------------------------------- helpers of render.py *)
 Definition Sr (s:str) : pyexpr := PStr ViaRepr s.
@@ -313,7 +319,7 @@ Definition render_tbl_op (c:cfg) (hb:bool) (tn:ident) (schema:option ident) (o:t
         (([rname c hb n] ++ tbl ++ [PList (map (render_ixexpr c) exprs)])
          ++ kwlist [("unique"%string, Some (PBool (match unique with Some b => b | None => false end)));
                     ("schema"%string, sch); ("if_not_exists"%string, opt_b ine)])
-  | ODropIndex n ie =>
+  | ODropIndex n ie _ =>
       PCall [p; lit "drop_index"]
         ([rname c hb n] ++ kwlist [("table_name"%string, if hb then None else Some (id_ tn)); ("schema"%string, sch); ("if_exists"%string, opt_b ie)])
   | OCreateUnique n cols deferrable initially =>
@@ -530,7 +536,7 @@ Definition eval_tbl_op (c:cfg) (hb:bool) (btn:ident) (bschema:option ident) (f:s
     n <- obind (nth_pos 0 args) (as_cname c) ;;
     tn <- (if hb then Some btn else obind (arg 1 "table_name" args) as_ident) ;;
     s <- schema_of args ;; ie <- opt_arg as_bool (kwarg "if_exists" args) ;;
-    Some (tn, s, ODropIndex n ie)
+    Some (tn, s, ODropIndex n ie true)
   else if str_eqb f (lit "create_unique_constraint") then
     n <- obind (nth_pos 0 args) (as_cname c) ;;
     tn <- (if hb then Some btn else obind (arg 1 "table_name" args) as_ident) ;;
